@@ -294,7 +294,7 @@ pub fn run_c12(ctx: &mut Ctx) {
     }
     let n = ctx.budget(600, 40000);
     for i in 0..n {
-        let a = small_str(ctx, if i % 10 == 0 { 14 } else { 6 });
+        let a = small_str(ctx, if i % 200 == 17 { 150 } else if i % 10 == 0 { 14 } else { 6 });
         let b = if i % 3 == 0 { small_str(ctx, 6) } else { mutate(ctx, &a) };
         let g = ctx.rng.random_bool(0.3);
         all_flags(ctx, &a, &b, &[g]);
